@@ -101,6 +101,15 @@ impl<L: Language> RuleRegistration<L> {
     self.rewriters.insert(id, rewriter).expect("should work");
   }
 
+  /// Registers a rewriter read from a rule file: a bad id is the user's error, not a bug.
+  pub(crate) fn try_insert_rewriter(
+    &self,
+    id: &str,
+    rewriter: RuleCore<L>,
+  ) -> Result<(), ReferentRuleError> {
+    self.rewriters.insert(id, rewriter)
+  }
+
   /// every `matches` inside the local utility rules must resolve as well
   pub(crate) fn verify_local_utils(&self) -> Result<(), crate::RuleSerializeError> {
     for rule in self.local.0.values() {
